@@ -4,10 +4,10 @@ import SJ.Proofs.LexCorrect
 # C07 — float_roundtrip: decimal → float conversion is correctly rounded
 
 Layered as in DESIGN §6 C07. Model: `SJ.Model.Lexical` (lexical + the `float_roundtrip` integration of
-`de.rs`), specification: `Spec.Ieee.roundNE64` / `Spec.Ieee32.roundNE32` of the literal's exact value.
+`de.rs`), specification: `Spec.Ieee.roundNE64` / `Spec.Ieee.roundNE32` of the literal's exact value.
 -/
 namespace SJ.Props.C07
-open SJ SJ.Gen SJ.Proofs.LexTables SJ.Model.Num SJ.Model.Lexical SJ.Spec.Ieee32
+open SJ SJ.Gen SJ.Proofs.LexTables SJ.Model.Num SJ.Model.Lexical SJ.Spec.Ieee
 open SJ.Proofs.LexSplit SJ.Proofs.LexRound SJ.Proofs.LexBh SJ.Proofs.LexFast SJ.Proofs.LexCorrect SJ.Proofs.NumInt
 
 /-- **cached_power_accuracy.** What holds for the extracted 80-bit cached powers, stated exactly: the ten
